@@ -178,6 +178,17 @@ claim("C11", "other",
       "symbolic execution of the real tree code with LAPACK contract stubs + independent einsum oracle + z3",
       "DESIGN.md section 1, C11")
 
+claim("C12", "other",
+      "PARTIAL (algebraic core only). On enumerated trees with symbolic node/operator tensors and symbolic tau: tree propagation-and-compression (real and imaginary time) = "
+      "4th-order Taylor polynomial of the dense operator, also for the linear tree against the chain's dense operator; hop_expr0/1/2 = projection of H psi on every tangent "
+      "direction; TTNEnviron incremental updates = fresh environments; the REAL one- and two-site projector-splitting sweeps with the local Krylov propagator replaced by an "
+      "arbitrary-output contract stub: effective operator at every local step = projection of H on the state as it is at that step, local steps +-tau/2 summing to tau per node and "
+      "-tau per bond, identity propagator => state unchanged.",
+      "NOT claimed: accuracy orders, norm/energy conservation, variable-mean-field scheme (Krylov / solve_ivp / regularised inversion are float iterations outside the family); "
+      "sector conservation rests on C11/C06 label handling; canonicalise/compress are identity stubs in the P&C harness (C11 shows they preserve the vector).",
+      "symbolic execution of the real tree evolution code with Krylov/LAPACK contract stubs + independent einsum oracle + z3",
+      "DESIGN.md section 1, C12")
+
 for pid in ["C%02d" % i for i in range(1, 21)]:
     if pid not in CHECKS:
         NA[pid] = "check not built yet (build in progress; see DESIGN.md)"
